@@ -849,3 +849,146 @@ func inOrChainWithOther(p *packages.Package, root ast.Node, x *ast.BinaryExpr, l
 	})
 	return ok
 }
+
+func init() {
+	register(&Rule{ID: "OR-2", Min: 3, Run: runOR2,
+		Doc: "recursion guards are set before descending: wherever a function tests membership of a key in a visited/in-progress set and then (when absent) calls something that can reach the same function again, the key is put into the set on a path that dominates that call — marking it only afterwards lets a reference cycle recurse without bound"})
+}
+
+func runOR2(c *load.Ctx, r *report.RuleResult) {
+	// which functions can reach which (callback-aware reachability per function is expensive; use the
+	// VTA graph restricted to the module)
+	cg := c.VTA()
+	reachMemo := map[*ssa.Function]map[*ssa.Function]bool{}
+	var reach func(f *ssa.Function) map[*ssa.Function]bool
+	reach = func(f *ssa.Function) map[*ssa.Function]bool {
+		if m, ok := reachMemo[f]; ok {
+			return m
+		}
+		m := map[*ssa.Function]bool{}
+		reachMemo[f] = m
+		stack := []*ssa.Function{f}
+		for len(stack) > 0 {
+			x := stack[len(stack)-1]
+			stack = stack[:len(stack)-1]
+			n := cg.Nodes[x]
+			if n == nil {
+				continue
+			}
+			for _, e := range n.Out {
+				g := e.Callee.Func
+				if g == nil || m[g] || !load.FuncInModule(g) {
+					continue
+				}
+				m[g] = true
+				stack = append(stack, g)
+			}
+		}
+		return m
+	}
+	for _, fn := range c.ModuleFunctions() {
+		if fn.Synthetic != "" {
+			continue
+		}
+		var lookups []*ssa.Lookup
+		for _, b := range fn.Blocks {
+			for _, ins := range b.Instrs {
+				if lk, ok := ins.(*ssa.Lookup); ok && lk.CommaOk {
+					if _, isMap := lk.X.Type().Underlying().(*types.Map); isMap {
+						lookups = append(lookups, lk)
+					}
+				}
+			}
+		}
+		if len(lookups) == 0 {
+			continue
+		}
+		n := 0
+		for _, b2 := range fn.Blocks {
+			for _, ins2 := range b2.Instrs {
+				call, ok := ins2.(*ssa.Call)
+				if !ok {
+					continue
+				}
+				sc := call.Call.StaticCallee()
+				if sc == nil || !load.FuncInModule(sc) || (sc != fn && !reach(sc)[fn]) {
+					continue
+				}
+				// membership tests on a key this recursive call depends on
+				var guards []*ssa.Lookup
+				for _, lk := range lookups {
+					if dominatesInstr(lk, call) && usesValueOf(call, lk.Index) {
+						guards = append(guards, lk)
+					}
+				}
+				if len(guards) == 0 {
+					continue
+				}
+				n++
+				var names []string
+				marked := false
+				for _, lk := range guards {
+					names = append(names, describeValue(lk.X))
+					for _, b3 := range fn.Blocks {
+						for _, ins3 := range b3.Instrs {
+							if mu, ok := ins3.(*ssa.MapUpdate); ok && sameOrigin(mu.Map, lk.X) && (mu.Key == lk.Index || sameOrigin(mu.Key, lk.Index)) && dominatesInstr(mu, call) {
+								marked = true
+							}
+						}
+					}
+				}
+				sort.Strings(names)
+				key := fmt.Sprintf("guard|%s|call %s#%d", load.FuncKey(fn), sc.Name(), n)
+				if marked {
+					r.OK(key, c.Pos(call.Pos()), "the key is put into a visited/in-progress set ("+strings.Join(names, ", ")+") before the recursive descent")
+				} else {
+					r.Bad(key, c.Pos(call.Pos()), fmt.Sprintf("%s is consulted as a recursion guard, but the key is not inserted before the call of %s, which can come back here: a cycle of references recurses without bound", strings.Join(names, ", "), sc.Name()))
+				}
+			}
+		}
+	}
+}
+
+// usesValueOf: some argument of the call is derived from v (directly, or through calls/conversions).
+func usesValueOf(call *ssa.Call, v ssa.Value) bool {
+	var derived func(x ssa.Value, depth int) bool
+	derived = func(x ssa.Value, depth int) bool {
+		if x == v || sameOrigin(x, v) {
+			return true
+		}
+		if depth > 6 {
+			return false
+		}
+		switch y := x.(type) {
+		case *ssa.Call:
+			for _, a := range y.Call.Args {
+				if derived(a, depth+1) {
+					return true
+				}
+			}
+		case *ssa.UnOp:
+			return derived(y.X, depth+1)
+		case *ssa.Convert:
+			return derived(y.X, depth+1)
+		case *ssa.ChangeType:
+			return derived(y.X, depth+1)
+		case *ssa.Extract:
+			return derived(y.Tuple, depth+1)
+		case *ssa.FieldAddr:
+			return derived(y.X, depth+1)
+		case *ssa.Field:
+			return derived(y.X, depth+1)
+		case *ssa.Lookup:
+			return derived(y.Index, depth+1) || derived(y.X, depth+1)
+		case *ssa.IndexAddr:
+			return derived(y.Index, depth+1) || derived(y.X, depth+1)
+		}
+		return false
+	}
+	for _, a := range call.Call.Args {
+		if derived(a, 0) {
+			return true
+		}
+	}
+	return false
+}
